@@ -79,12 +79,41 @@ def _cases(draw):
     if reqs:
         L['requires'] = reqs
     installed = ['L:1', 'E:1'] + (['E:2'] if draw(st.booleans()) else [])
-    order = draw(st.permutations(installed))
-    sel = draw(st.sampled_from(['L:1', 'L:1', 'L:1', None, 'L:1 E:1']))
+    order = list(draw(st.permutations(installed)))
+    lexicons = {'L:1': L, 'E:1': E1, 'E:2': E2}
     opts = [None, None, '', 'E:1', '*'] + (['E:1 E:2'] if 'E:2' in installed else [])
+    if draw(st.integers(0, 2)) == 0:
+        # an extension of E:1 among the expand lexicons: relations it declares between synsets of
+        # E:1, from E:1 to its own synsets and back are relations of the expand lexicons too
+        ids = [x['id'] for x in E1['synsets']]
+        own = [{'id': f'EX-s{i}', 'ili': draw(st.sampled_from(ILIS + shared)),
+                'partOfSpeech': 'n', 'meta': None} for i in range(draw(st.integers(1, 2)))]
+        allids = ids + [x['id'] for x in own]
+        ext_ss = []
+        for sid in ids:
+            rels = [{'target': draw(st.sampled_from(allids)),
+                     'relType': draw(st.sampled_from(TYPES)), 'meta': None}
+                    for _ in range(draw(st.integers(0, 2)))]
+            d = {'id': sid, 'external': True}
+            if rels:
+                d['relations'] = rels
+            ext_ss.append(d)
+        for x in own:
+            rels = [{'target': draw(st.sampled_from(allids)),
+                     'relType': draw(st.sampled_from(TYPES)), 'meta': None}
+                    for _ in range(draw(st.integers(0, 2)))]
+            if rels:
+                x['relations'] = rels
+        lexicons['EX:1'] = {'id': 'EX', 'version': '1', 'label': 'EX', 'language': 'es',
+                            'email': 'e', 'license': 'l', 'meta': None,
+                            'extends': {'id': 'E', 'version': '1'}, 'synsets': ext_ss + own}
+        order.insert(draw(st.integers(order.index('E:1') + 1, len(order))), 'EX:1')
+        opts += ['E:1 EX:1', 'EX:1 E:1', '*']
+        if draw(st.booleans()):
+            L.setdefault('requires', []).append({'id': 'EX', 'version': '1'})
+    sel = draw(st.sampled_from(['L:1', 'L:1', 'L:1', None, 'L:1 E:1']))
     expand = draw(st.sampled_from(opts))
-    return {'lexicons': {'L:1': L, 'E:1': E1, 'E:2': E2}, 'order': list(order),
-            'selection': sel, 'expand': expand}
+    return {'lexicons': lexicons, 'order': order, 'selection': sel, 'expand': expand}
 
 
 def _setup(case):
@@ -118,6 +147,8 @@ def _classify(case):
     tags = {'expand:' + {None: 'default', '': 'empty'}.get(case['expand'], case['expand']),
             'mode:' + ('unrestricted' if case['selection'] is None else 'restricted')}
     L = case['lexicons']['L:1']
+    if 'EX:1' in case['order'] and any(x.spec == 'EX:1' for x in view.expand):
+        tags.add('extension-among-expand-lexicons')
     if case['selection'] and any(f"{d['id']}:{d['version']}" not in case['order']
                                  for d in L.get('requires', [])):
         tags.add('dependency-missing')
